@@ -15,13 +15,13 @@ CHECK = {
              thorough={"checks": 40000, "shards": 16, "cap": 2400},
              no_ulimit=True,
              # MAP_POPULATE of the 16 MB initial mapping costs 2 ms of kernel time per bolt open (6 opens per case)
-             env=dict({"BAO_RAFT_DISABLE_MAP_POPULATE": "1"}, **({"VERIF_KNOWN": __import__("os").environ["C09_DEV_KNOWN"]} if "C09_DEV_KNOWN" in __import__("os").environ else {})),  # DEVHOOK
+             env={"BAO_RAFT_DISABLE_MAP_POPULATE": "1"},
              floors={"replicas": {"nontrivial": 0.20}}),
         unit("leader-log", "raft", ["raft/c08_live_test.go", "raft/c09_replicas_test.go", "raft/c09_leaderlog_test.go"], "^TestVerif_C09_LeaderLog$",
              quick={"checks": 4000, "shards": 1, "cap": 600},
              thorough={"checks": 30000, "shards": 16, "cap": 2400},
              no_ulimit=True,
-             env=dict({"BAO_RAFT_DISABLE_MAP_POPULATE": "1"}, **({"VERIF_KNOWN": __import__("os").environ["C09_DEV_KNOWN"]} if "C09_DEV_KNOWN" in __import__("os").environ else {})),  # DEVHOOK
+             env={"BAO_RAFT_DISABLE_MAP_POPULATE": "1"},
              # goroutine timing can in principle change how raft groups a burst when rapid re-runs a case; every
              # verdict is a fact about the log actually written, so an unreproduced failure still counts
              flaky_is_violation=True),
